@@ -160,41 +160,87 @@ def rule_H4(ctx) -> None:
 
 
 def rule_H5(ctx) -> None:
+    """aliases: in the member loop of EnumType.__new__ a member object is created only when the number has none yet (decided
+    by identity / membership, not truthiness - members are ints and the member for 0 is falsy), the number -> member table
+    is written only then (first declaration wins), and the name -> member table always receives the canonical member"""
+    from ..absint import Interp
+    from ..sym import N, walk, show
     mod = ctx.repo.mod(M_ENUM)
     fn = mod.func("EnumType.__new__")
     ctx.analysed("EnumType.__new__")
-    # the member loop: member = value_map.get(value); if member is None: create; member_map[name] = member
-    tests = []
-    for n in ast.walk(fn):
-        if isinstance(n, ast.If):
-            body_txt = " ".join(ast.unparse(b) for b in n.body)
-            if "__new__" in body_txt and ("value_map" in body_txt or "value_map" in ast.unparse(n.test) or "member" in ast.unparse(n.test)):
-                tests.append(n)
-    if not tests:
-        ctx.inconclusive("H5", "EnumType.__new__:alias-canonical", "member creation guard not recognised", mod.loc(fn))
+    NAME, NUM = N("$name"), N("$number")
+
+    def roles(it, depth):
+        if it[0] == "call" and it[1][0] == "a" and it[1][2] == "items" and depth == 0:
+            return [NAME, NUM]
+        return None
+
+    paths = Interp(mod, named_containers=True, loop_roles=roles).run(fn)
+    ctx.count(len(paths))
+    # which local is the number -> member table: the one published as _value_map_
+    vm = mm = None
+    for p in paths:
+        for e in p.events:
+            if e.kind == "call" and isinstance(e.data, tuple):
+                for t in walk(e.data):
+                    if t[0] == "dictd":
+                        for k, v in t[1]:
+                            if k == C("_value_map_"):
+                                vm = v
+                            if k == C("_member_map_"):
+                                mm = v
+    name = "EnumType.__new__:alias-canonical"
+    if vm is None or mm is None or vm[0] != "n" or mm[0] != "n":
+        ctx.inconclusive("H5", name, "the tables published as _value_map_ / _member_map_ are not plain locals", mod.loc(fn))
         return
-    t = simplify(from_ast(tests[0].test))
-    ok_shape = (t[0] == "op" and t[1] == "is" and t[3] == C(None)) or (t[0] == "op" and t[1] == "not" and t[2][0] == "op" and t[2][1] == "in")
-    truthiness = t[0] in ("n", "a") or (t[0] == "op" and t[1] == "not" and t[2][0] in ("n", "a", "call"))
-    if truthiness:
-        ctx.refuted("H5", "EnumType.__new__:alias-canonical", "truthiness-test", mod.loc(tests[0]),
-                    f"whether a member already exists for a number is decided by truthiness ({ast.unparse(tests[0].test)}); members are ints, so the member for 0 is falsy and an alias of 0 creates a second member object",
-                    "class E(Enum): ZERO = 0; NIL = 0  ->  E(0) is E.ZERO fails")
-    elif ok_shape:
-        ctx.proved("H5", "EnumType.__new__:alias-canonical", mod.loc(tests[0]), ast.unparse(tests[0].test))
+    lookups = (("call", ("a", vm, "get"), (NUM,), ()), ("sub", vm, NUM))
+    n_create = n_alias = 0
+    problems = []
+    for p in paths:
+        if p.outcome == "raise":
+            continue
+        creates = [e for e in p.events if e.kind == "call" and e.loops and e.data[1][0] == "a" and e.data[1][2] == "__new__" and
+                   (("value", NUM) in e.data[3] or NUM in e.data[2])]
+        vm_stores = [e for e in p.events if e.kind == "store" and e.loops and e.data[0] == ("sub", vm, NUM)]
+        mm_stores = [e for e in p.events if e.kind == "store" and e.loops and e.data[0] == ("sub", mm, NAME)]
+        absent = present = truthy = None
+        for k, v in p.valuation.items():
+            if k[0] == "op" and k[1] == "is" and k[2] in lookups and k[3] == C(None):
+                absent, present = v, not v
+            elif k[0] == "op" and k[1] == "in" and k[2] == NUM and k[3] == vm:
+                absent, present = not v, v
+            elif k in lookups:
+                truthy = v
+        if truthy is not None and absent is None:
+            problems.append(("truthiness-test", f"whether a member already exists for a number is decided by the truthiness of {show(lookups[0])}; members are ints, so the member for 0 is "
+                             "falsy and an alias of 0 creates a second member object", "class E(Enum): ZERO = 0; NIL = 0  ->  E(0) is E.ZERO fails"))
+            continue
+        if creates:
+            n_create += 1
+            if absent is not True:
+                problems.append(("unguarded-creation", "a member object is created on a path that has not established that the number has no member yet", "class E(Enum): A = 1; B = 1"))
+            if not vm_stores or vm_stores[-1].data[1] != creates[-1].data:
+                problems.append(("value-map-not-updated", "a newly created member is not recorded in the number -> member table", "E(1)"))
+            if not mm_stores or mm_stores[-1].data[1] != creates[-1].data:
+                problems.append(("member-map-not-updated", "a newly created member is not recorded under its name", "E['A']"))
+        else:
+            n_alias += 1
+            if present is not True:
+                problems.append(("alias-without-member", "no member is created on a path that has not established that the number already has one", "class E(Enum): A = 1"))
+            if vm_stores:
+                problems.append(("overwritten", "the number -> member entry is (re)assigned for an alias: a later alias replaces the canonical member", "class E(Enum): A = 1; B = 1; E(1) is E.A"))
+            if not mm_stores or mm_stores[-1].data[1] not in lookups:
+                problems.append(("alias-not-canonical", "an alias name is not bound to the member already registered for its number", "class E(Enum): A = 1; B = 1; E.B is E.A"))
+    if any(w == "truthiness-test" for w, _, _ in problems):
+        w, why, needs = next(x for x in problems if x[0] == "truthiness-test")
+        ctx.refuted("H5", name, w, mod.loc(fn), why, needs)
+    elif not n_create or not n_alias:
+        ctx.inconclusive("H5", name, f"member loop not recognised ({n_create} creating, {n_alias} aliasing paths)", mod.loc(fn))
+    elif problems:
+        w, why, needs = problems[0]
+        ctx.refuted("H5", name, w, mod.loc(fn), why, needs)
     else:
-        ctx.inconclusive("H5", "EnumType.__new__:alias-canonical", f"guard `{ast.unparse(tests[0].test)}` is neither an identity nor a membership test", mod.loc(tests[0]))
-    src = ast.unparse(fn)
-    if "member_map[name] = member" in src and "value_map[value] = member" in src:
-        ctx.proved("H5", "EnumType.__new__:maps-updated", mod.loc(fn))
-    else:
-        ctx.inconclusive("H5", "EnumType.__new__:maps-updated", "value_map / member_map updates not in the recognised form", mod.loc(fn))
-    # value_map[value] = member only inside the creation branch (first declaration wins)
-    inside = any("value_map[value] = member" in ast.unparse(b) for b in tests[0].body)
-    if inside:
-        ctx.proved("H5", "EnumType.__new__:first-declaration-wins", mod.loc(tests[0]))
-    else:
-        ctx.refuted("H5", "EnumType.__new__:first-declaration-wins", "overwritten", mod.loc(fn), "the value map entry is (re)assigned outside the creation branch: a later alias replaces the canonical member")
+        ctx.proved("H5", name, mod.loc(fn), f"{n_create} creating and {n_alias} aliasing paths")
 
 
 def rule_H6(ctx) -> None:
